@@ -25,7 +25,8 @@ def check(run: Run) -> None:
     page_then_hashmap(run, model, eff, "C11.R4")
     event_wiring(run, model, eff, "C11.R5", "ModifiedZorgNotesEvent")
     n = 0
-    for q in ("zorg.service.handlers._check_for_modified_notes", "zorg.service.handlers._add_or_update_modify_date", "zorg.service.handlers._pop_line_before_zid"):
+    slice_ = sorted(q for q in model.reachable(["zorg.service.handlers._check_for_modified_notes", "zorg.service.handlers.update_note_modify_dates"]) if q.startswith("zorg.service.handlers."))
+    for q in slice_:
         f = model.func(q)
         bad = split_join_mismatch(f.node)
         n += 1
